@@ -76,7 +76,7 @@ def _render_stages():
     fid = dict(name="render-fidelity", handler="REND",
                gen=dict(runs=dict(quick=[bfs("MC_C07", "C07_quick"), bfs("MC_C02", "C02_flat")],
                                   thorough=[bfs("MC_C07", "C07_thorough"), bfs("MC_C02", "C02_flat"), bfs("MC_C02", "C02_quick")])),
-               sample=dict(quick=1500, thorough=30000),
+               sample=dict(quick=1000, thorough=8000),
                trace=dict(module="RenderTrace", cfg="RenderTrace"))
     return [design, fid]
 
